@@ -42,6 +42,7 @@ MonInit(sid) ==
     dead   |-> {},
     should |-> [c \in 1..d.nc |-> FALSE],
     shsite |-> [c \in 1..d.nc |-> ""],
+    lastpan |-> [t \in 1..d.nt |-> FALSE],
     fsite  |-> "",
     fop    |-> "",
     may    |-> [c \in 1..d.nc |-> FALSE],
@@ -304,13 +305,16 @@ OnFin(m, e) ==
             THEN Flag(m2, "C11", CallSig(m2, t, "locks-held-after-panic")) ELSE m2
       m4 == IF cu.faulted /\ (HeldBy(m3, t) \ (m3.dead \cup cu.h0)) # {}
             THEN Flag(m3, "C12", CallSig(m3, t, "fault=" \o m3.fop \o "/locks-held-after-raw-panic")) ELSE m3
-  IN [m4 EXCEPT !.cur[t] = NoCall,
+  IN [m4 EXCEPT !.cur[t] = NoCall, !.lastpan[t] = cu.panicked,
                 !.kalive[t] = (e.keyback \/ (cu.rel = "forget" /\ cu.succ /\ ~cu.panicked))]
 
+\* C11: after a panic the thread's key must be obtainable again
+KeyLost(m, t) == IF m.lastpan[t] THEN Flag(Flag(m, "C06", "key-not-obtainable"), "C11", "key-not-obtainable-after-panic")
+                 ELSE Flag(m, "C06", "key-not-obtainable")
 OnGet(m, e) ==
   LET t == e.t
       m1 == IF e.some = ~m.kalive[t] THEN m
-            ELSE Flag(m, "C06", IF e.some THEN "second-live-key" ELSE "key-not-obtainable")
+            ELSE IF e.some THEN Flag(m, "C06", "second-live-key") ELSE KeyLost(m, t)
       m2 == IF e.some /\ HeldBy(m1, t) \ m1.leaked # {} /\ m1.dead = {}
             THEN Flag(m1, "C03", "key-obtained-while-holding") ELSE m1
   IN [m2 EXCEPT !.kalive[t] = TRUE]     \* after a get the thread's key is alive either way
@@ -337,7 +341,7 @@ OnRawPanic(m, e) ==
 
 OnProbe(m, e) ==
   IF e.some = ~m.kalive[e.t] THEN m
-  ELSE Flag(m, "C06", IF e.some THEN "second-live-key" ELSE "key-not-obtainable")
+  ELSE IF e.some THEN Flag(m, "C06", "second-live-key") ELSE KeyLost(m, e.t)
 
 HoldSnap(m, t) == [l \in DOMAIN m.hw |-> <<m.hw[l] = t, m.hr[l][t]>>]
 
